@@ -2463,6 +2463,13 @@ func (r *Resolver) findDS(ctx context.Context, signer, qname string, parentDS []
 // determine whether an insecure delegation exists between the ancestor and
 // the zone.
 func (r *Resolver) isZoneSecure(ctx context.Context, qname string, parentDS []dns.RR, zone string) bool {
+	if zone == rootzone && len(parentDS) == 0 && r.hasTrustAnchors() {
+		// The root has no parent and therefore no DS: it is signed because
+		// its keys are the configured trust anchors. Reading "no DS" as
+		// "insecure" here would let anyone strip the signatures from a
+		// root-zone answer or denial and have it accepted unvalidated.
+		return true
+	}
 	if !hasSupportedDS(parentDS) {
 		// Either no DS records, or every DS uses a digest type this
 		// validator cannot verify. RFC 6840 §5.2 treats such zones as
